@@ -156,6 +156,9 @@ def translate_lookup(fn):
 def clear_mode(fn, owner):
     """body of a _clear_view_lookup_cache function -> 'Swap' | 'InPlace'"""
     body = _strip_doc(fn.body)
+    want_sig = 'self' if owner == 'self' else ''
+    if u(fn.args) != want_sig or fn.decorator_list:
+        raise Unknown('signature of _clear_view_lookup_cache: (%s)' % u(fn.args))
     if len(body) != 1:
         raise Unknown('_clear_view_lookup_cache has %d statements' % len(body))
     t = u(body[0])
@@ -957,4 +960,62 @@ def route_iface_once(fn):
             raise Unknown('register_route_request_iface: %s' % type(n).__name__)
     if made != 1 or registered != 1:
         raise Unknown('register_route_request_iface makes %d / registers %d interfaces' % (made, registered))
+    return True
+
+
+# ---------------------------------------------------------------- Registry._clear_view_lookup_cache, add_exception_view
+# clear_mode() reads the whole body of Registry._clear_view_lookup_cache (one statement of a known form, signature
+# (self), undecorated): the function is translated into the parameter clear_mode_registry, no pin needed
+TRANSLATED.append('pyramid/registry.py:Registry._clear_view_lookup_cache')
+TRANSLATED.append('pyramid/config/views.py:ViewsConfiguratorMixin.add_exception_view')
+EXCVIEW_FORCED = {'view': 'view', 'context': 'context', 'exception_only': 'True'}
+
+
+def exception_view_forwards(fn):
+    """ViewsConfiguratorMixin.add_exception_view: what the harness bookkeeping relies on -- the statement is forwarded to
+    add_view with exception_only=True and the given view/context (context defaults to Exception only when None), and
+    does nothing else to the configuration state.  Accepted statements: the loop that rejects arguments (only raises),
+    `if context is None: context = Exception`, ONE `view_options.update(...)` (dict(...) call, dict display or keywords)
+    whose entries include view=view, context=context, exception_only=True, and the final
+    `return self.add_view(**view_options)`.  Anything else fails closed."""
+    if u(fn.args) != 'self, view=None, context=None, **view_options':
+        raise Unknown('signature of add_exception_view: (%s)' % u(fn.args))
+    if [u(d) for d in fn.decorator_list] not in ([], ['action_method'], ['viewdefaults', 'action_method']):
+        raise Unknown('decorators of add_exception_view: %s' % [u(d) for d in fn.decorator_list])
+    body = _strip_doc(fn.body)
+    updates = 0
+    forwarded = False
+    for idx, st in enumerate(body):
+        t = u(st)
+        if isinstance(st, ast.For):
+            for n in ast.walk(st):
+                if isinstance(n, (ast.Assign, ast.AugAssign, ast.Return, ast.Delete, ast.Break)) or \
+                        (isinstance(n, ast.Call) and u(n.func) != 'ConfigurationError'):
+                    raise Unknown('add_exception_view: the argument check does more than raise: %s' % u(n)[:60])
+        elif t == 'if context is None:\n    context = Exception':
+            pass
+        elif isinstance(st, ast.Expr) and isinstance(st.value, ast.Call) and u(st.value.func) == 'view_options.update':
+            c = st.value
+            entries = {}
+            if len(c.args) == 1 and isinstance(c.args[0], ast.Call) and u(c.args[0].func) == 'dict' and not c.args[0].args:
+                entries = {k.arg: u(k.value) for k in c.args[0].keywords}
+            elif len(c.args) == 1 and isinstance(c.args[0], ast.Dict) and all(isinstance(k, ast.Constant) for k in c.args[0].keys):
+                entries = {k.value: u(v) for k, v in zip(c.args[0].keys, c.args[0].values)}
+            elif not c.args:
+                entries = {}
+            else:
+                raise Unknown('add_exception_view: view_options.update(%s)' % u(c.args[0])[:60])
+            entries.update({k.arg: u(k.value) for k in c.keywords})
+            if None in entries:
+                raise Unknown('add_exception_view: ** in view_options.update')
+            for k, v in EXCVIEW_FORCED.items():
+                if entries.get(k) != v:
+                    raise Unknown('add_exception_view forces %s=%s' % (k, entries.get(k)))
+            updates += 1
+        elif t == 'return self.add_view(**view_options)' and idx == len(body) - 1:
+            forwarded = True
+        else:
+            raise Unknown('add_exception_view: statement not recognised: %s' % t.split('\n')[0][:90])
+    if updates != 1 or not forwarded:
+        raise Unknown('add_exception_view: %d updates of view_options, forwarded=%s' % (updates, forwarded))
     return True
